@@ -23,7 +23,9 @@ PROP = dict(
          "evaluated is in path_histogram",
     bounds=dict(
         quick="sort/issorted/median: all weak orders n<=6 (5316), all permutations n<=8 (46k), 9 structured letters x lengths "
-              "{1,2,9,10,1000,2000}; MedianFilter orders 3..12 x init {0,-1,5} x every sequence over {0,1,2}^k k<=6 and every permutation "
+              "{1,2,9,10,1000,2000}; sort.nearly (both directions): an ordered run of L in {31,32,33,40,100,1000} (ascending / descending, "
+              "strict / with repeats) followed or preceded by T in {1,2,5,20,L-1} unordered values below / inside / above the run, and two "
+              "concatenated ordered runs (L1 in {32,40,100}, L2 in {1,31,40,100}, all 16 direction / repeat combinations); MedianFilter orders 3..12 x init {0,-1,5} x every sequence over {0,1,2}^k k<=6 and every permutation "
               "of 1..7, 3 framings each; long streams 2000 samples (8-level LCG) orders 3..12,16,33,64 x 2 letters x 4 framings; "
               "every sequence over {0,1,2,3}^k k<=4; medfilt n 3..9 x every sequence over {-1,0,2}^L L<=6 + 7 letters x every (n, length) pair of "
               "3..12 x 1..24; BIG sizes 70000 and 200000 elements (closed-form letters reversed ramp, two-valued, rotated ramp, ramp): sort both "
